@@ -320,18 +320,23 @@ class ListOf(Ty):
 class MapOf(Ty):
     """dict with symbolic contents (unbounded): keys of shape ``key`` (Str / Int), values of shape ``val``
     (Str / Int / Bool, or ``Iface`` of a by-id interface).  Supports in, [], []=, del, get, pop,
-    setdefault, update, copy, dict(d), copy.copy(d), ==, clear; not iteration / len.
+    setdefault, update, copy, dict(d), copy.copy(d), ==, clear, len (cardinality), ``Opt(...)`` values, items() as the
+    source of a key- and value-preserving dict comprehension; not iteration.
     Opaque keys: objects whose interface names the attribute that decides their equality (``map_key``).
     A value shape without scalar sort (``Any_``, an interface that is not by-id; default) means that the
     values are not tracked: only the key set is symbolic, a read gives an arbitrary value of that shape."""
 
-    def __init__(self, key, val=None):
+    def __init__(self, key, val=None, key_object=None):
         self.key = key
         self.val = val
+        # key_object(interp, key term) -> the object a key is handed out as by `items()` (opaque keys)
+        self.key_object = key_object
 
     def make(self, interp, name):
         from . import models
-        return models.new_smap(interp, name, self.key, self.val)
+        m = models.new_smap(interp, name, self.key, self.val)
+        m.key_object = self.key_object
+        return m
 
 
 class Derived:
